@@ -440,6 +440,11 @@ impl<G: Getter<Quantity, E> + ?Sized, E: Copy + Debug> Updatable<E> for Derivati
         let prev_output = match self.prev_output {
             Some(some) => some,
             None => {
+                //This is the first sample after a reset. A cached error from an earlier update is
+                //no longer current, so it must not be returned anymore.
+                if self.value.is_err() {
+                    self.value = Ok(None);
+                }
                 self.prev_output = Some(output);
                 return Ok(());
             }
@@ -496,6 +501,11 @@ impl<G: Getter<Quantity, E> + ?Sized, E: Copy + Debug> Updatable<E> for Integral
         let prev_output = match self.prev_output {
             Some(some) => some,
             None => {
+                //This is the first sample after a reset. A cached error from an earlier update is
+                //no longer current, so it must not be returned anymore.
+                if self.value.is_err() {
+                    self.value = Ok(None);
+                }
                 self.prev_output = Some(output);
                 return Ok(());
             }
